@@ -59,3 +59,9 @@ claim('C07', 'model evaluation of the three writers over symbolic systems with r
       'scale factor on lattice and Cartesian coordinates, per-type counts and grouping); wrap precedes writing; the snippet names the resolved units/atom_style/boundary flags; per-style column tables equal the LAMMPS reference '
       'with units of each column\'s own quantity from the requested style (also hybrid); table writers output each component divided by its unit, box-relative when scaled, ids 1..N / unique own ids. '
       'That printed decimals equal the values to the printed precision is not decided. One known finding (smd lacks x0 y0 z0).', 'DESIGN.md §6 C07')
+
+claim('C08', 'model evaluation of the four readers on model files (token lines with symbolic numbers, data frames with explicit row order); writer/reader table agreement by evaluation per atom_style; round-trip identity of the bounding-box arithmetic on symbolic cells; refusal paths; API-compatibility rule',
+      'Decides structural necessary conditions: writer and reader column tables are equal for every atom_style (incl. hybrid) and the standard dump columns; the data-file first pass returns counts, bounds x length unit, tilts, '
+      'masses by type, section offsets, column count, style comment, and refuses each incomplete file with FileFormatError; atom_style resolution; image flags are re-applied per atom id as flags·vects for a file whose atom lines are out of order; '
+      'the table reader sorts by id, reshapes in C order, re-applies units / box-relative conversion; the dump-file reader inverts the writer\'s bounding box exactly (orthogonal and tilted, symbolic), reads pp flags (8 settings) and matches columns; '
+      'the POSCAR reader applies the scale factor to lattice and Cartesian coordinates, reads the optional symbols line and counts. That parsed decimals equal printed ones is not decided.', 'DESIGN.md §6 C08')
